@@ -174,15 +174,17 @@ Fault(act, S, e, x, a, b, v, ks) ==
   /\ UNCHANGED <<U, st, api>>
   /\ ev' = Event(act, S, e, x, a, b, v, ks, "FAULT", NoNtf)
 
-\* ---- reputation.Put(epoch, peerID, value)
-RepPut(S, e, p, v) ==
+\* ---- reputation.Put(epoch, peerID, value), k+1 times in one transaction (k = 0: the ordinary single call; the
+\*      repetition lets a scenario drive the per-id counter across 127/128 and 255/256 in a few recorded steps).
+\*      The i-th value of an id is stored under 'r' || id || VMInt(i): a variable-length counter.
+RepPut(S, e, p, v, k) ==
   IF HasAlpha(S)
   THEN LET old == {x \in st.repC : x.e = e /\ x.p = p}
-           cnt == IF old = {} THEN 1 ELSE (CHOOSE x \in old : TRUE).c + 1
-       IN  Done("rep.put", S, e, 0, p, Nil, v, <<>>, NoNtf,
-                [st EXCEPT !.repC = (@ \ old) \cup {[e |-> e, p |-> p, c |-> cnt]},
-                           !.repV = @ \cup {[e |-> e, p |-> p, i |-> cnt, v |-> v]}])
-  ELSE Fault("rep.put", S, e, 0, p, Nil, v, <<>>)
+           c0  == IF old = {} THEN 0 ELSE (CHOOSE x \in old : TRUE).c
+       IN  Done("rep.put", S, e, k, p, Nil, v, <<>>, NoNtf,
+                [st EXCEPT !.repC = (@ \ old) \cup {[e |-> e, p |-> p, c |-> c0 + k + 1]},
+                           !.repV = @ \cup {[e |-> e, p |-> p, i |-> c0 + j, v |-> v] : j \in 1..(k + 1)}])
+  ELSE Fault("rep.put", S, e, k, p, Nil, v, <<>>)
 
 \* ---- audit.Put(rawAuditResult); header = (epoch e, container c, From = key of n)
 AudPut(S, e, c, n, v) ==
@@ -307,7 +309,7 @@ KeySeqs == {<<k>> : k \in Keys} \cup {<<k1, k2>> : k1 \in Keys, k2 \in Keys}
 \* P(X) = {RandomElement(X)} for scenario generation; PS(X, h) chooses signer sets (h = the set that
 \* satisfies the witness checks of the call, used as a bias by the scenario generator).
 NextOf(P(_), PS(_, _)) ==
-  \/ "rep" \in Acts /\ \E e \in P(Epochs), p \in P(Peers), v \in P(Vals) : \E S \in PS(SignerSets, {"ALPHA"}) : RepPut(S, e, p, v)
+  \/ "rep" \in Acts /\ \E e \in P(Epochs), p \in P(Peers), v \in P(Vals) : \E S \in PS(SignerSets, {"ALPHA"}) : RepPut(S, e, p, v, 0)
   \/ "aud" \in Acts /\ \E e \in P(Epochs), c \in P(Cids), n \in P(Nodes), v \in P(Vals) : \E S \in PS(SignerSets, {n}) : AudPut(S, e, c, n, v)
   \/ "ir" \in Acts /\ \E ks \in P({SetToSeq(I) : I \in IRSets} \cup {<<>>}) : \E S \in PS(SignerSets, {"CMT"}) : IrSet(S, ks)
   \/ "est" \in Acts /\ \E e \in P(Epochs \cup NearEst), c \in P(Cids), n \in P(Nodes), z \in P(Sizes) : \E S \in PS(SignerSets, {n}) : EstPut(S, e, c, n, z)
@@ -341,8 +343,9 @@ GInit == [rep |-> {}, aud |-> {}, est |-> {}, id |-> {}, cfgN |-> {}, cfgF |-> {
 GNext(g, e) ==
   IF e.res # "HALT" THEN g
   ELSE CASE e.act = "rep.put" ->
-              [g EXCEPT !.rep = @ \cup {[e |-> e.e, p |-> e.a, v |-> e.v,
-                                         i |-> 1 + Cardinality({x \in g.rep : x.e = e.e /\ x.p = e.a})]}]
+              \* (e.x + 1 puts of the same value in one transaction, see RepPut)
+              LET n0 == Cardinality({x \in g.rep : x.e = e.e /\ x.p = e.a})
+              IN  [g EXCEPT !.rep = @ \cup {[e |-> e.e, p |-> e.a, v |-> e.v, i |-> n0 + j] : j \in 1..(e.x + 1)}]
          [] e.act = "aud.put" ->
               [g EXCEPT !.aud = {x \in @ : ~(x.e = e.e /\ x.c = e.a /\ x.n = e.b)} \cup {[e |-> e.e, c |-> e.a, n |-> e.b, v |-> e.v]}]
          [] e.act = "est.put" ->
